@@ -178,6 +178,7 @@ func genWorkload(seed int64, nblocks int) []block {
 	pendingFail := -1
 	focus, focusLeft := -1, 0
 	scriptPid := int64(0)
+	lbpPid := int64(0)
 	for b := 0; b < nblocks; b++ {
 		bl := block{Txs: []txT{}}
 		switch r := rng.Intn(10); {
@@ -278,6 +279,15 @@ func genWorkload(seed int64, nblocks int) []block {
 			pid := scriptPid
 			bl.Txs = append(bl.Txs, plain(op{K: "vote", U: 0, C: 1}),
 				plain(op{K: "joinPool", U: 1, A: 3, C: pid}), plain(op{K: "swap", U: 2, D: iUion, E: iAtom, A: 4000, C: pid}))
+		case 8: // a liquidity-bootstrapping pool: weights shifting smoothly over 400 days of CHAIN time, i.e. in the middle
+			// of its change window at every later export.  Its exported form must not depend on anything but the
+			// chain state (x/gamm's ExportGenesis "pokes" every pool at the export context's block time)
+			addPool(kBalancer, iUosmo, iEth)
+			lbpPid = int64(len(pools))
+			bl.Txs = append(bl.Txs, plain(op{K: "createLBP", U: 3, D: iUosmo, E: iEth, A: 300000, B: 0, C: 2}))
+		}
+		if lbpPid > 0 && b > 8 && b%6 == 3 { // trades on it for the rest of the history (on replicas and importers alike)
+			bl.Txs = append(bl.Txs, plain(op{K: "swap", U: b % nUsers, D: iUosmo, E: iEth, A: int64(500 + b), C: lbpPid}))
 		}
 		for i := 0; i < n; i++ {
 			o := op{U: rng.Intn(nUsers), V: rng.Intn(nUsers + nPoor), D: rng.Intn(len(denoms)), E: rng.Intn(len(denoms)),
@@ -981,6 +991,14 @@ func (n *node) msgOf(o op) sdk.Msg {
 			[]balancer.PoolAsset{{Weight: osmomath.NewInt(1 + o.B%9), Token: sdk.NewCoin(d, osmomath.NewInt(1000+o.A))},
 				{Weight: osmomath.NewInt(1 + o.C%9), Token: sdk.NewCoin(e, osmomath.NewInt(1000+o.A*3))}}, "")
 		return &m
+	case "createLBP":
+		m := balancer.NewMsgCreateBalancerPool(u, balancer.PoolParams{SwapFee: osmomath.NewDecWithPrec(2, 3), ExitFee: osmomath.ZeroDec(),
+			SmoothWeightChangeParams: &balancer.SmoothWeightChangeParams{StartTime: n.Ctx.BlockTime(), Duration: 400 * 24 * time.Hour,
+				TargetPoolWeights: []balancer.PoolAsset{{Weight: osmomath.NewInt(1), Token: sdk.NewCoin(d, osmomath.ZeroInt())},
+					{Weight: osmomath.NewInt(9), Token: sdk.NewCoin(e, osmomath.ZeroInt())}}}},
+			[]balancer.PoolAsset{{Weight: osmomath.NewInt(9), Token: sdk.NewCoin(d, osmomath.NewInt(1000+o.A))},
+				{Weight: osmomath.NewInt(1), Token: sdk.NewCoin(e, osmomath.NewInt(1000+o.A*3))}}, "")
+		return &m
 	case "createStable":
 		m := stableswap.NewMsgCreateStableswapPool(u, stableswap.PoolParams{SwapFee: osmomath.NewDecWithPrec(o.C%50, 3), ExitFee: osmomath.ZeroDec()},
 			sdk.NewCoins(sdk.NewCoin(d, osmomath.NewInt(1000+o.A)), sdk.NewCoin(e, osmomath.NewInt(1000+o.A*3))), []uint64{1, 1}, "")
@@ -1256,7 +1274,9 @@ func TestReplica(t *testing.T) {
 		start = ef.Block
 		// module state as the freshly initialised node reports it (read from the genesis-time state)
 		mods := map[string]string{}
-		for k, v := range n.App.ExportState(n.Ctx) {
+		// (read like ExportAppStateAndValidators reads the exporter: with a zero block time - x/gamm's ExportGenesis
+		// pokes weight-shifting pools at the context's block time, which must not differ between the two readings)
+		for k, v := range n.App.ExportState(n.Ctx.WithBlockTime(time.Time{})) {
 			var x any
 			json.Unmarshal(v, &x)
 			bz, _ := json.Marshal(x)
